@@ -464,8 +464,9 @@ def corpus_chunks():
 
 def chunks(tier, seed):
     def gen():
-        for (d, paths) in ec.gen_cases(tier, seed, with_collectors=False):
+        thorough = tier == "thorough"
+        for i, (d, paths) in enumerate(ec.gen_cases(tier, seed, with_collectors=False)):
             ps = [p for p in paths if in_fragment(p)]
-            if ps:
+            if ps and (not thorough or i % 2 == 0):
                 yield (d, ps)
     return ec.chunks_by_weight(gen())
